@@ -110,10 +110,10 @@ func OwnRevsDomain() *Domain {
 //
 //	dims: set template (t0..t3, t3 may be unlisted -> create), curRev (5: t0.0 t1.0 t2.0 "" gone), histLimit (0..2),
 //	      numbering (3: ascending, descending, ties), collisions (0..1), squatter on the natural name (2),
-//	      4 revision slots: 1 + 3 owners(self,none,other) * 3 label shapes ; 2 pods: rev label in 4 (t0.0 t1.0 t2.0 t3.0) x 2 (healthy / absent)
+//	      4 revision slots: 1 + 3 owners(self,none,other) * 3 label shapes ; 2 pods: absent | rev label in 4 (t0.0 t1.0 t2.0 t3.0) x (healthy, terminating)
 func HistoryDomain() *Domain {
 	per := 1 + 3*3
-	dims := []int{4, 5, 3, 3, 2, 2, per, per, per, per, 5, 5}
+	dims := []int{4, 5, 3, 3, 2, 2, per, per, per, per, 9, 9}
 	d := &Domain{Name: "history(4 revisions, 2 pods)", Dims: dims}
 	d.Make = func(ix []int) *Scenario {
 		sc := &Scenario{Dom: ix}
@@ -173,7 +173,8 @@ func HistoryDomain() *Domain {
 			if st == 0 {
 				continue
 			}
-			sc.Pods = append(sc.Pods, PodSpec{Ord: o, Phase: "Running", Ready: true, Rev: fmt.Sprintf("t%d.0", st-1), Owner: "self"})
+			// 1..4: healthy pod labelled t(st-1).0 ; 5..8: the same, but terminating
+			sc.Pods = append(sc.Pods, PodSpec{Ord: o, Phase: "Running", Ready: true, Term: st > 4, Rev: fmt.Sprintf("t%d.0", (st-1)%4), Owner: "self"})
 		}
 		return sc
 	}
@@ -336,8 +337,63 @@ func AdmittedDomain() *Domain {
 	return d
 }
 
+var faultKinds = []Fault{
+	{Kind: "ServerError"}, {Kind: "Conflict"}, {Kind: "NotFound"}, {Kind: "AlreadyExists"}, {Kind: "Timeout"},
+	{Kind: "Timeout", Applied: true}, {Die: true, Kind: "Die"}, {Die: true, Applied: true, Kind: "Die"},
+}
+
+// FaultDomain wraps a snapshot domain with one or two injected faults: every plan position 1..maxK (positions past
+// the end of a plan simply never fire), every list call 1..4, every error kind, "applied but reported failed",
+// and process death before / after the call took effect.
+func FaultDomain(base *Domain, maxK int, pairs bool) *Domain {
+	npos := maxK + 4
+	dims := append(append([]int{}, base.Dims...), npos, len(faultKinds))
+	if pairs {
+		dims = append(dims, npos+1, len(faultKinds)) // second fault; position index npos = none
+	}
+	nb := len(base.Dims)
+	d := &Domain{Name: "faults[" + base.Name + "]", Dims: dims}
+	mk := func(pos, kind int) Fault {
+		f := faultKinds[kind]
+		if pos < maxK {
+			f.K = pos + 1
+		} else {
+			f.List = pos - maxK + 1
+		}
+		return f
+	}
+	d.Make = func(ix []int) *Scenario {
+		sc := base.Make(ix[:nb])
+		sc.Dom = ix
+		sc.Faults = []Fault{mk(ix[nb], ix[nb+1])}
+		if pairs && ix[nb+2] < npos && ix[nb+2] != ix[nb] {
+			sc.Faults = append(sc.Faults, mk(ix[nb+2], ix[nb+3]))
+		}
+		return sc
+	}
+	return d
+}
+
 func extraDomain(name string, maxOrd, maxRep, nph int) *Domain {
 	switch name {
+	case "faults-pods":
+		return FaultDomain(PodsDomain(maxOrd, maxRep, nph, false), 8, false)
+	case "faults2-pods":
+		return FaultDomain(PodsDomain(maxOrd, maxRep, nph, false), 8, true)
+	case "faults-own-pods":
+		return FaultDomain(OwnPodsDomain(2), 6, false)
+	case "faults-own-revs":
+		return FaultDomain(OwnRevsDomain(), 8, false)
+	case "faults-history":
+		return FaultDomain(HistoryDomain(), 8, false)
+	case "faults2-history":
+		return FaultDomain(HistoryDomain(), 8, true)
+	case "faults-claims":
+		// at most one claim template: with two, the order of the claim creates is Go map order, and which one an
+		// injected fault hits would not be reproducible
+		base := ClaimsDomain()
+		base.Dims[0] = 2
+		return FaultDomain(base, 8, false)
 	case "own-pods":
 		return OwnPodsDomain(2)
 	case "own-pods3":
